@@ -143,3 +143,11 @@ func VerifNoErr(err error, msg string) {
 	}
 }
 func verifNoErr(err error, msg string) { VerifNoErr(err, msg) }
+
+// VerifDebugf prints during native replays (VERIF_DEBUG set); a no-op for the executor.
+func VerifDebugf(format string, args ...interface{}) {
+	if os.Getenv("VERIF_DEBUG") != "" {
+		fmt.Printf("VERIF-DEBUG "+format+"\n", args...)
+	}
+}
+func verifDebugf(format string, args ...interface{}) { VerifDebugf(format, args...) }
